@@ -696,6 +696,10 @@ def run_rq_config(cfg, T):
             else:
                 step = "build_context"
                 cxs = [build_context(pc["abs"], list(pc["ts"]) if pc["ts"] is not None else None) for pc in cfg["contexts"]]
+                if cxs and len(cxs) < 128 and len(cxs) % 2 == 0:
+                    # the same PresentationContext OBJECT listed twice (repeated abstract syntax by aliasing)
+                    cxs.append(cxs[0])
+                    t.bump("rq_lists_with_aliased_context") if hasattr(t, "bump") else None
                 if cfg["route"] == "setter":
                     step = "ae.requested_contexts"
                     ae.requested_contexts = cxs
